@@ -2,6 +2,7 @@
 from .. import astx
 from .. import db as D
 from ..rules import call1, rel
+from ..rules import life as L
 from witness import wit, c20 as gen
 
 META = ("CALL1 (every call wrapper invokes its target exactly once on every structural path, expands every parameter pack "
@@ -71,6 +72,9 @@ def run(chk, tier):
         n += 1
     if n < 20:
         chk.analysis_broken("CALL1: only %d wrappers analysed (floor 20)" % n)
+    # SRC: copying an inplace_function leaves the source callable alive (no relocation slot on a const source)
+    if L.const_source_rule(chk, db, L.slot_signatures(db), "SRC") < 2:
+        chk.analysis_broken("SRC: fewer than 2 copying members of inplace_function found")
     nrel = rel.check(chk, db, ["_utility/pair.hpp", "_tuple/tuple.hpp", "_functional/inplace_function.hpp"])
     if nrel < 9:
         chk.analysis_broken("REL: only %d pair/tuple/function operators modelled" % nrel)
